@@ -136,3 +136,53 @@ def requant_oracle(w, qtype_name, axis, group_size):
         idx = (a != b).nonzero()[0].tolist()
         return [f"requantization changes code at grouped position {idx}: {a[tuple(idx)].item()} -> {b[tuple(idx)].item()}"]
     return []
+
+
+def size_thresholds(relpaths, lo=24, hi=1 << 15):
+    """Integer literals of the CURRENT source of `relpaths` (relative to the repository under check) that sit in a position where
+    they can act as a size threshold: comparisons, `//`, `%`, range/split/chunk arguments, constant assignments. The checks
+    whose shapes are concrete derive extra shapes from them (just above one and two multiples), so a fast/blocked/cached path that
+    only starts beyond the default bounds is still entered. Returns {literal: ["file:line", ...]}."""
+    import ast
+    import os
+    import pathlib
+
+    repo = os.environ.get("QUANTO_REPO", "/repo")
+    out = {}
+    for rel in relpaths:
+        p = pathlib.Path(repo) / rel
+        if rel.endswith((".cpp", ".h", ".cu", ".mm")):
+            import re
+
+            try:
+                for i, line in enumerate(p.read_text().splitlines(), 1):
+                    code = line.split("//")[0]
+                    if code.lstrip().startswith(("*", "/*", "#include")):
+                        continue
+                    for tok in re.findall(r"(?<![\w.])(\d+)(?![\w.])", code):
+                        if lo <= int(tok) <= hi:
+                            out.setdefault(int(tok), []).append(f"{rel}:{i}")
+            except Exception:  # noqa
+                pass
+            continue
+        try:
+            tree = ast.parse(p.read_text())
+        except Exception:  # noqa
+            continue
+
+        def lits(n):
+            return [c.value for c in ast.walk(n) if isinstance(c, ast.Constant) and type(c.value) is int and lo <= c.value <= hi]
+
+        for n in ast.walk(tree):
+            vals = []
+            if isinstance(n, ast.Compare):
+                vals = lits(n)
+            elif isinstance(n, ast.BinOp) and isinstance(n.op, (ast.FloorDiv, ast.Mod)):
+                vals = lits(n.right)
+            elif isinstance(n, ast.Assign) and isinstance(n.value, ast.Constant):
+                vals = lits(n.value)
+            elif isinstance(n, ast.Call) and getattr(n.func, "id", getattr(n.func, "attr", "")) in ("range", "split", "chunk", "narrow"):
+                vals = lits(n)
+            for v in vals:
+                out.setdefault(v, []).append(f"{rel}:{n.lineno}")
+    return out
